@@ -195,7 +195,8 @@ pub fn sync(
                 p = choose|k: int| 0 < k <= c1.len() && #[trigger] id_at(c1, k) == version
                     && snap_decodable(snap@) && snap_decode(snap@) == replay(c1, k);
             }
-        } else {
+        }
+        else {
             proof { lemma_ri_monotone(c0, server.chain(), p, st0.base, st0.tasks, to_sync(st0.unsynced)); }
         }
     }
@@ -222,7 +223,8 @@ pub fn sync(
         if let Some(sync_op) = SyncOp::from_op(op) {
             proof { lemma_from_op_is_to_sync1(op, Some(sync_op)); }
             local_ops.push(sync_op);
-        } else {
+        }
+        else {
             proof { lemma_from_op_is_to_sync1(op, None); }
         }
     }
